@@ -94,6 +94,11 @@ def one(ctx, rng, xr, model, dmod, disp, direct):
                 od_ = [str(d_) for d_ in rng.permutation(list(ds[vn].dims))]
                 ds[vn] = ds[vn].transpose(*od_).copy(data=np.ascontiguousarray(ds[vn].transpose(*od_).values))
         key += "|dims-permuted"
+    if rng.random() < 0.2:
+        # dask-backed native dataset (as opened from a file with chunks)
+        d0_ = [d_ for d_ in ds.dims if ds.sizes[d_] > 1]
+        ds = ds.chunk({d0_[0]: 1} if d0_ and rng.random() < 0.7 else {})
+        key += "|dask"
     if rng.random() < 0.3:
         # history: a sibling dataset of the same model and shape - same first/last value of every monotonic
         # 1-D float axis, other interior values, other data - is converted first (caches keyed on too little)
